@@ -306,6 +306,18 @@ pub fn wrapper_menu(full: bool) -> Vec<Wrapper> {
             }),
         });
     }
+    // IDAT payloads whose zlib header announces a window below 32K (libpng writes these for small images)
+    for h in [[0x58u8, 0x85], [0x48, 0x89], [0x68, 0x81], [0x08, 0x1d], [0x78, 0x01]] {
+        v.push(Wrapper {
+            kind: WKind::Png,
+            descr: format!("png IDAT zlib header {:02x}{:02x}", h[0], h[1]),
+            supported: true,
+            build: Arc::new(move |s| {
+                let z = zlib_wrap(h, &s.stream, &s.plain);
+                png_wrap(&z, &[700], true)
+            }),
+        });
+    }
     // split inside the Adler-32 (relative to the end)
     for back in [1usize, 2, 4, 5] {
         v.push(Wrapper {
